@@ -240,6 +240,47 @@ def _counters(ck, repo, nf):
             ck.ob("R3-counters", f"{cq}.{meth}", "advances-counter", ok, f"{[short(n.ast) for n in ws]}", "" if ok else f"must advance {attr} exactly once on every path", loc(fn._module, fn))
 
 
+def _instance_state(ck, repo):
+    """Records live in per-instance containers: a mutable container that the methods grow / index through `self` must be created for
+    each instance (bound in a method, normally __init__).  A dict / list literal bound only in the class body is one object shared by
+    every instance, so one logger would return what another recorded."""
+    n = 0
+    for cq in [LG + x for x in ("StandardLogger", "MemoryLogger", "StdoutLogger", "AIMLogger", "LoggerList")] + [OC]:
+        cls = repo.cls(cq)
+        mi = cls._module
+        chain = [repo.cls(c) for c in repo.mro(cq) if c.startswith(repo.PKG)]
+        class_level = {}
+        bound_in_method, mutated = set(), {}
+        for c in chain:
+            for st in c.body:
+                if isinstance(st, (ast.Assign, ast.AnnAssign)):
+                    tg = st.targets[0] if isinstance(st, ast.Assign) else st.target
+                    v = st.value
+                    if isinstance(tg, ast.Name) and isinstance(v, (ast.Dict, ast.List, ast.Set)) or (isinstance(tg, ast.Name) and isinstance(v, ast.Call) and isinstance(v.func, ast.Name) and v.func.id in ("dict", "list", "set", "defaultdict", "deque")):
+                        class_level[tg.id] = st
+                if isinstance(st, ast.FunctionDef):
+                    for x in ast.walk(st):
+                        if isinstance(x, (ast.Assign, ast.AnnAssign, ast.AugAssign)):
+                            for t in (x.targets if isinstance(x, ast.Assign) else [x.target]):
+                                if isinstance(t, ast.Attribute) and dotted(t.value) == "self":
+                                    bound_in_method.add(t.attr)
+                                if isinstance(t, ast.Subscript) and isinstance(t.value, ast.Attribute) and dotted(t.value.value) == "self":
+                                    mutated.setdefault(t.value.attr, x)
+                        if isinstance(x, ast.Call) and isinstance(x.func, ast.Attribute) and x.func.attr in ("append", "extend", "update", "setdefault", "add", "insert", "pop", "clear"):
+                            r = x.func.value
+                            while isinstance(r, ast.Subscript):
+                                r = r.value
+                            if isinstance(r, ast.Attribute) and dotted(r.value) == "self":
+                                mutated.setdefault(r.attr, x)
+        for attr, st in sorted(class_level.items()):
+            if attr in mutated:
+                n += 1
+                ok = attr in bound_in_method
+                ck.ob("R2-record-get", cq, f"per-instance:{attr}", ok, f"`{short(st, 60)}` in the class body; mutated by `{short(mutated[attr], 50)}`",
+                      "" if ok else f"`{attr}` is one container shared by all instances of the class (bound only in the class body) and is mutated through self: records of different loggers end up in the same container", loc(mi, st))
+    ck.count("class-level-mutable-containers", n)
+
+
 def _save_then_list(ck, repo, nf):
     fn = _m(repo, LG + "StandardLogger", "_save_checkpoint")
     mi = fn._module
@@ -380,6 +421,7 @@ def run(ck, repo: Repo, tier: str):
     nf = NF(repo, inline_depth=1, inline_calls=False)
     for group in (_fan_out, _record_get, _counters, _save_then_list, _save_model_waits, _cadence):
         ck.guard(group, ck, repo, nf)
+    ck.guard(_instance_state, ck, repo)
 
 
 def _split_top(s):
@@ -401,6 +443,7 @@ def _split_top(s):
 
 _L, _C = "rl_blox/logging/logger.py", "rl_blox/logging/checkpointer.py"
 MUTANTS = [
+    {"id": "c20-memory-shared-stats", "file": "rl_blox/logging/logger.py", "rule": "R2", "edits": [("class MemoryLogger(LoggerBase):\n", "class MemoryLogger(LoggerBase):\n    stats = {}\n    stats_loc = {}\n"), ("        self.n_steps = 0\n        self.stats_loc = {}\n        self.stats = {}\n", "        self.n_steps = 0\n")]},
     {"id": "c20-list-drops-step", "file": _L, "rule": "R1", "find": "                key, value, episode, step, t, verbose, format_str\n", "replace": "                key, value, episode, None, t, verbose, format_str\n"},
     {"id": "c20-list-swaps-episode-step", "file": _L, "rule": "R1", "find": "                key, value, episode, step, t, verbose, format_str\n", "replace": "                key, value, step, episode, t, verbose, format_str\n"},
     {"id": "c20-list-first-only", "file": _L, "rule": "R1", "find": "        for logger in self.loggers:\n            logger.record_epoch(key, value, episode, step, t)", "replace": "        for logger in self.loggers[:1]:\n            logger.record_epoch(key, value, episode, step, t)"},
